@@ -542,3 +542,5 @@ META = {
     "with the node kinds of the running interpreter's ast module.",
     "more": 'Also decided: no binding construct takes names out of the context again (only `del` does); an `except ... as n` target may be registered by visit_Try/TryStar or by visit_ExceptHandler. Lambda is a binder like def: a visitor exists that pushes a scope, registers all parameter kinds in it and pops it; the names of a tuple / list assignment target are collected at every level of nesting. The raise wrapper wraps a BoolOp only on evidence computed from that BoolOp\'s own subtree (a pure-Python `a or b` stays Python whatever commands precede it).',
 }
+
+META["more"] += ' If comprehensions get a scope of their own, a `:=` target must be registered in a scope that outlives it (PEP 572).'
